@@ -4,6 +4,9 @@
 //! gated loader must all give the same observation.
 use crate::build::*;
 use crate::common::*;
+use crate::abs::*;
+use crate::absworld::*;
+use crate::props::c01::*;
 use crate::props::c17::describe_world;
 use crate::rng::Rng;
 use crate::sexp::Sx;
@@ -59,6 +62,9 @@ pub struct GatedLoader<'a> {
 }
 
 impl Loader for GatedLoader<'_> {
+  fn max_redirects(&self) -> usize {
+    self.inner.max_redirects
+  }
   fn load(&self, specifier: &ModuleSpecifier, options: LoadOptions) -> LoadFuture {
     let _ = options;
     let result = self.inner.answer(specifier);
@@ -71,17 +77,27 @@ impl Loader for GatedLoader<'_> {
 /// Builds with a schedule: whenever the build future is pending, one closed
 /// gate chosen by the schedule's next number is opened. Returns None if the
 /// build does not finish within the poll budget (reported as non-termination).
-pub fn build_scheduled(world: &World, roots: &[String], cfg: &BuildCfg, schedule: &mut Rng) -> Option<(ModuleGraph, usize)> {
-  let loader = GatedLoader { inner: WorldLoader::new(world), gates: RefCell::new(vec![]) };
-  let mut graph = ModuleGraph::new(graph_kind(cfg.kind));
-  let roots_u: Vec<ModuleSpecifier> = roots.iter().map(|r| ModuleSpecifier::parse(r).unwrap()).collect();
-  let imports: Vec<ReferrerImports> = cfg
+pub fn build_scheduled(c: &BuiltCase, schedule: &mut Rng) -> Option<(ModuleGraph, usize)> {
+  let mut inner = WorldLoader::new(&c.world);
+  inner.max_redirects = c.max_redirects;
+  let loader = GatedLoader { inner, gates: RefCell::new(vec![]) };
+  let mut graph = ModuleGraph::new(graph_kind(c.bcfg.kind));
+  let roots_u: Vec<ModuleSpecifier> = c.roots.iter().map(|r| ModuleSpecifier::parse(r).unwrap()).collect();
+  let imports: Vec<ReferrerImports> = c.bcfg
     .imports
     .iter()
     .map(|(r, i)| ReferrerImports { referrer: ModuleSpecifier::parse(r).unwrap(), imports: i.clone() })
     .collect();
   let exec = InlineExecutor;
-  let options = BuildOptions { is_dynamic: cfg.is_dynamic, skip_dynamic_deps: cfg.skip_dynamic_deps, executor: &exec, ..Default::default() };
+  let options = BuildOptions {
+    is_dynamic: c.bcfg.is_dynamic,
+    skip_dynamic_deps: c.bcfg.skip_dynamic_deps,
+    unstable_bytes_imports: c.unstable.0,
+    unstable_text_imports: c.unstable.1,
+    unstable_css_imports: c.unstable.2,
+    executor: &exec,
+    ..Default::default()
+  };
   let mut max_outstanding = 0;
   {
     let mut fut = Box::pin(graph.build(roots_u, imports, &loader, options));
@@ -121,34 +137,39 @@ pub fn build_scheduled(world: &World, roots: &[String], cfg: &BuildCfg, schedule
 
 pub fn gen_case(seed: u64, k: u64, tier: Tier) -> Case {
   let mut rng = Rng::for_case(seed, k);
-  let cfg = GenCfg { assets: false, max_modules: if tier == Tier::Quick { 8 } else { 12 }, redirects: true, faults: true, same_attr_proviso: false };
-  let (mut world, roots) = gen_world(&mut rng, &cfg);
+  let mut c = gen_build_case(&mut rng, tier);
   // bias towards several dynamic branches sharing a failing descendant
   if rng.chance(50) {
-    let mods: Vec<String> = world.entries.iter().filter(|(_, e)| matches!(e, Entry::Module { raw: None, .. })).map(|(k, _)| k.clone()).collect();
+    let mods: Vec<String> = c.world.entries.iter().filter(|(s, e)| attr_class_target(s, true) == 0 && matches!(e, Entry::Module { raw: None, .. })).map(|(k, _)| k.clone()).collect();
     if mods.len() >= 3 {
       let root = mods[0].clone();
       for m in &mods[1..] {
-        if let Some(Entry::Module { src, .. }) = world.entries.get_mut(m) {
+        if let Some(Entry::Module { src, .. }) = c.world.entries.get_mut(m) {
           src.imports.push(Imp { form: Form::Static, text: "https://h.test/nowhere.ts".to_string() });
         }
       }
-      if let Some(Entry::Module { src, .. }) = world.entries.get_mut(&root) {
+      if let Some(Entry::Module { src, .. }) = c.world.entries.get_mut(&root) {
         for m in &mods[1..] {
           src.imports.push(Imp { form: Form::Dynamic, text: m.clone() });
         }
       }
+      if !c.roots.contains(&root) {
+        c.roots.push(root);
+      }
     }
   }
-  let bcfg = BuildCfg { kind: *rng.pick(&[0u8, 0, 1, 2]), is_dynamic: rng.chance(8), skip_dynamic_deps: rng.chance(8), ..Default::default() };
   let mut direct = vec![];
   // reference: immediate-ready loader
-  let reference = observe(&new_graph(&world, &roots, &bcfg));
-  let repeats = if tier == Tier::Quick { 8 } else { 25 };
+  let mut ref_graph = ModuleGraph::new(graph_kind(c.bcfg.kind));
+  let ref_log = real_build(&c, &mut ref_graph, &c.roots, &c.bcfg.imports);
+  let reference = observe(&ref_graph);
+  let repeats = if tier == Tier::Quick { 6 } else { 25 };
   let mut n_builds = 1;
   for r in 0..repeats {
-    let o = observe(&new_graph(&world, &roots, &bcfg));
+    let mut g = ModuleGraph::new(graph_kind(c.bcfg.kind));
+    real_build(&c, &mut g, &c.roots, &c.bcfg.imports);
     n_builds += 1;
+    let o = observe(&g);
     if o != reference {
       direct.push(format!("repeated execution {} of the same build differs from the first: {}", r, first_line_diff(&reference, &o)));
       break;
@@ -158,7 +179,7 @@ pub fn gen_case(seed: u64, k: u64, tier: Tier) -> Case {
   let mut max_out = 0;
   for sidx in 0..schedules {
     let mut sched = Rng::for_case(seed ^ 0x5eed, k * 1000 + sidx);
-    match build_scheduled(&world, &roots, &bcfg, &mut sched) {
+    match build_scheduled(&c, &mut sched) {
       None => {
         direct.push("build did not finish under a completion schedule (poll budget exhausted)".to_string());
         break;
@@ -174,17 +195,16 @@ pub fn gen_case(seed: u64, k: u64, tier: Tier) -> Case {
       }
     }
   }
-  let meta = serde_json::json!({"roots": roots, "build": format!("{:?}", bcfg), "world": describe_world(&world)});
-  let h = {
-    use std::hash::{Hash, Hasher};
-    let mut hs = std::collections::hash_map::DefaultHasher::new();
-    meta.to_string().hash(&mut hs);
-    hs.finish() % 1_000_000_007
-  };
+  // the reference build is also what the (schedule-free, proved schedule-independent) model computes
+  let (parsed, strings) = parse_world(&c);
+  let mut it = build_intern_multi(&[&ref_graph], &strings);
+  let w = abs_world(&c.world, &parsed, c.max_redirects, &mut it);
+  let imps = abs_imports(&ref_graph, &mut it);
+  let obs = abs_bgraph(&ref_graph, &ref_log, &mut it);
   Case {
-    input: Sx::atoms([h]),
-    obs: Sx::atoms([h]),
-    meta,
+    input: Sx::L(vec![w, opts_sx(&c), Sx::atoms(c.roots.iter().map(|r| it.spec(r))), imps]),
+    obs: Sx::L(vec![obs]),
+    meta: serde_json::json!({"roots": c.roots, "build": format!("{:?}", c.bcfg), "world": describe_world(&c.world)}),
     nontrivial: max_out >= 3,
     dist: vec![
       ("builds".to_string(), n_builds as u64),
